@@ -466,6 +466,18 @@ where
                     .map_err(|_| ConnectionInnerError::IllegalState)?;
             }
             ConnectionControl::DeallocateSession(session_id) => {
+                // A session engine queues its last frames before it asks for its slot to be
+                // released, but on another channel, and the two channels are polled in no
+                // particular order: the frames go out first, or a begin would find its session
+                // gone (and an end could follow the begin of the slot's next tenant).
+                if matches!(
+                    self.connection.local_state(),
+                    ConnectionState::Opened | ConnectionState::CloseReceived
+                ) {
+                    while let Ok(frame) = self.outgoing_session_frames.try_recv() {
+                        self.on_outgoing_session_frames(frame).await?;
+                    }
+                }
                 self.connection.deallocate_session(session_id)
             }
             ConnectionControl::GetMaxFrameSize(resp) => {
